@@ -119,6 +119,7 @@ type Client struct {
 	futureStore   *future.Store
 	connectFuture *future.Future
 	tomb          tomb.Tomb
+	started       bool
 	mutex         sync.Mutex
 	finish        sync.Once
 }
@@ -235,6 +236,7 @@ func (c *Client) Connect(config *Config) (ConnectFuture, error) {
 
 	// start process routine
 	c.tomb.Go(c.processor)
+	c.started = true
 
 	// wrap future
 	wrappedFuture := &connectFuture{c.connectFuture}
@@ -807,9 +809,12 @@ func (c *Client) end(err error, possiblyClosed bool) error {
 	// close connection
 	err = c.cleanup(err, true, possiblyClosed)
 
-	// shutdown goroutines
+	// shutdown goroutines (there are none if the connect packet could not be
+	// sent, waiting would then block forever)
 	c.tomb.Kill(nil)
-	_ = c.tomb.Wait()
+	if c.started {
+		_ = c.tomb.Wait()
+	}
 
 	return err
 }
